@@ -12,7 +12,7 @@ RULE = ("fault model over both real files: (T) truncation points (quick: every p
         "ids, cache[id] and source.for_id for every id; distinct key = (fault kind, field id hit, outcome class)")
 ASSUMPTIONS = ["outcome oracle: completed or InvalidPyodaDataError; promptness decided on executed-line counts (sys.monitoring), never on wall time", "RLIMIT_AS of the worker as memory ceiling"]
 MIN_NT = {"quick": 30, "thorough": 60}
-REQUIRED = {"any": ["cases", "loads_ok", "loads_rejected", "zones_fetched", "structured_alias_faults", "structured_rule_faults", "structured_name_faults"]}
+REQUIRED = {"any": ["cases", "loads_ok", "loads_rejected", "zones_fetched", "structured_alias_faults", "structured_rule_faults", "structured_name_faults", "structured_mapping_faults"]}
 EXHAUSTIVE = {"thorough": True}
 
 VALS = (0x00, 0x01, 0x7F, 0x80, 0xFF)
@@ -43,7 +43,7 @@ def shards(tier, seed):
                     {"name": f"{f}:varint-inflation", "file": f, "mode": "T-fields", "sub": "V"}]
             out += [{"name": f"{f}:seeded:{i}", "file": f, "mode": "seeded", "n": 130} for i in range(6)]
             out += [{"name": f"{f}:carrier:{i}", "file": f, "mode": "carrier", "zones": 4, "vals": 2} for i in range(6)]
-            out += [{"name": f"{f}:structured:{sub}", "file": f, "mode": "structured", "sub": sub, "n": 30} for sub in "ARP"]
+            out += [{"name": f"{f}:structured:{sub}", "file": f, "mode": "structured", "sub": sub, "n": 30} for sub in "ARPW"]
         else:
             k = 48; step = (n + k - 1) // k
             out += [{"name": f"{f}:T:{i}", "file": f, "mode": "T", "lo": i * step, "hi": min(n + 1, (i + 1) * step)} for i in range(k)]
@@ -51,7 +51,7 @@ def shards(tier, seed):
                     {"name": f"{f}:varint-inflation", "file": f, "mode": "T-fields", "sub": "V"}]
             out += [{"name": f"{f}:seeded:{i}", "file": f, "mode": "seeded", "n": 3000} for i in range(24)]
             out += [{"name": f"{f}:carrier:{i}", "file": f, "mode": "carrier-all", "i": i, "k": 32} for i in range(32)]
-            out += [{"name": f"{f}:structured:{sub}:{i}", "file": f, "mode": "structured", "sub": sub, "n": None, "i": i, "k": 6} for sub in "ARP" for i in range(6)]
+            out += [{"name": f"{f}:structured:{sub}:{i}", "file": f, "mode": "structured", "sub": sub, "n": None, "i": i, "k": 6} for sub in "ARPW" for i in range(6)]
     return out
 
 
@@ -439,6 +439,49 @@ def run_structured(ctx, R, data, table, sub, n, part):
                     ctx.count("structured_alias_faults")
                     R.run_case(bytes(bb), ["K", ps, vs], f"alias-{nm}", want)
         ctx.sample({"file": R.which, "fault": "alias-map", "entries": len(alias)})
+    elif sub == "W":
+        # the Windows-zone mapping field: groups of ids with their own counts. Faults: a group emptied, the list cut short right after an emptied
+        # group, a group's territory re-pointed at the primary-territory string, the list count off by one
+        from vf.models import nzd_ref
+        wf = [t for t in table if t[0] == 4]
+        cases_w = 0
+        for fid, a, b, e in wf:
+            r = nzd_ref.R(data); r.i = b
+            for _ in range(3): r.count()
+            total_at = r.i; total = r.count(); total_len = r.i - total_at
+            entries = []
+            try:
+                for k in range(total):
+                    st = r.i; r.count(); terr_at = r.i; terr = r.count(); cnt_at = r.i; cnt = r.count(); cnt_len = r.i - cnt_at
+                    for _ in range(cnt): r.count()
+                    entries.append({"k": k, "terr_at": terr_at, "terr": terr, "terr_len": cnt_at - terr_at, "cnt_at": cnt_at, "cnt": cnt, "cnt_len": cnt_len})
+            except Exception:  # noqa: BLE001
+                pass
+            prim = [en for en in entries if en["terr"] < len(pool) and pool[en["terr"]] == "001"]
+            prim_idx = prim[0]["terr"] if prim else None
+            for en in take(entries, n):
+                edits = []
+                if en["cnt_len"] == 1:
+                    edits.append(("group-emptied", [(en["cnt_at"], 0)]))
+                    if vlen(en["k"] + 1) == total_len:
+                        edits.append(("list-cut-after-emptied-group", [(en["cnt_at"], 0)] + list(zip(range(total_at, total_at + total_len), varint(en["k"] + 1)))))
+                    if prim_idx is not None and vlen(prim_idx) == en["terr_len"]:
+                        edits.append(("territory-primary+emptied", [(en["cnt_at"], 0)] + list(zip(range(en["terr_at"], en["terr_at"] + en["terr_len"]), varint(prim_idx)))
+                                      + (list(zip(range(total_at, total_at + total_len), varint(en["k"] + 1))) if vlen(en["k"] + 1) == total_len else [])))
+                    edits.append(("group-count+1", [(en["cnt_at"], (en["cnt"] + 1) & 0x7F)]))
+                for nm, ed in edits:
+                    bb = bytearray(data); ps = []; vs = []
+                    for at, v_ in ed: bb[at] = v_; ps.append(at); vs.append(v_)
+                    ctx.count("structured_mapping_faults"); cases_w += 1
+                    R.run_case(bytes(bb), ["K", ps, vs], f"windows-{nm}", lambda cids: list(cids)[:4])
+            for dv in (-1, 1):
+                enc = varint(total + dv)
+                if len(enc) == total_len:
+                    bb = bytearray(data); bb[total_at:total_at + total_len] = enc
+                    ctx.count("structured_mapping_faults")
+                    R.run_case(bytes(bb), ["K", list(range(total_at, total_at + total_len)), list(enc)], f"windows-list-count{dv:+d}", lambda cids: list(cids)[:4])
+        if not wf: ctx.count("structured_mapping_faults", 0); ctx.note("this file has no Windows-zone mapping field")
+        ctx.sample({"file": R.which, "fault": "windows-mapping", "fields": len(wf)})
     elif sub == "R":
         tailed = [z for z in zones if any(k.startswith("dst-rule") for k, _, _ in z["spans"])]
         for z in take(tailed, n):
